@@ -693,8 +693,25 @@ theorem hellingerGrad_fst (x y : Fin n → ℝ) (hy : ∑ j, y j ≠ 0) :
     · rw [h2]; simp
     · exact absurd h2 hy
   · rfl
+  · rfl
 
-theorem hellingerGrad_snd (x y : Fin n → ℝ) (hx : ∑ j, x j ≠ 0) (hy : ∑ j, y j ≠ 0) :
+/-- at zero distance the returned gradient is zero (no division by the distance). -/
+theorem hellingerGrad_snd_of_dist_zero (x y : Fin n → ℝ) (hx : ∑ j, x j ≠ 0) (hy : ∑ j, y j ≠ 0)
+    (hd : Real.sqrt (1 - (∑ k, Real.sqrt (x k * y k))
+              / Real.sqrt ((∑ k, x k) * (∑ k, y k))) = 0) :
+    (Grad.hellingerGrad realT (List.ofFn x) (List.ofFn y)).2 = List.ofFn (fun (_ : Fin n) => (0 : ℝ)) := by
+  simp only [Grad.hellingerGrad, sumL_zip_map_ofFn, sumL_ofFn, zip_ofFn, map_ofFn',
+    Bool.and_eq_true, Bool.or_eq_true, eqV_iff, realT, two, Nat.cast_ofNat]
+  split_ifs with h1 h2
+  · exact absurd h1.2 hy
+  · rcases h2 with h2 | h2
+    · exact absurd h2 hx
+    · exact absurd h2 hy
+  · rfl
+
+theorem hellingerGrad_snd (x y : Fin n → ℝ) (hx : ∑ j, x j ≠ 0) (hy : ∑ j, y j ≠ 0)
+    (hd : Real.sqrt (1 - (∑ k, Real.sqrt (x k * y k))
+              / Real.sqrt ((∑ k, x k) * (∑ k, y k))) ≠ 0) :
     (Grad.hellingerGrad realT (List.ofFn x) (List.ofFn y)).2
       = List.ofFn (fun j =>
           (((∑ k, y k) * (∑ k, Real.sqrt (x k * y k)))
@@ -726,8 +743,33 @@ theorem hellinger_grad_hasDerivAt (n : ℕ) (x y : Fin n → ℝ) (i : Fin n)
       (fun t => (Grad.hellingerGrad realT (List.ofFn (Function.update x i t)) (List.ofFn y)).1)
       ((Grad.hellingerGrad realT (List.ofFn x) (List.ofFn y)).2.getD i.val 0) (x i) := by
   simp_rw [hellingerGrad_fst _ y hy.ne']
-  rw [hellingerGrad_snd x y hx.ne' hy.ne', getD_ofFn]
   have hpos : 0 < (∑ j, x j) * (∑ j, y j) := mul_pos hx hy
+  by_cases hs : Real.sqrt (1 - (∑ k, Real.sqrt (x k * y k))
+              / Real.sqrt ((∑ k, x k) * (∑ k, y k))) = 0
+  · -- the argument of the outer root is negative (it cannot be, but that is not needed): the root
+    -- is locally constant 0 there and the returned gradient is 0
+    rw [hellingerGrad_snd_of_dist_zero x y hx.ne' hy.ne' hs, getD_ofFn]
+    have hneg : 1 - (∑ k, Real.sqrt (x k * y k)) / Real.sqrt ((∑ k, x k) * (∑ k, y k)) < 0 := by
+      rcases lt_trichotomy (1 - (∑ k, Real.sqrt (x k * y k))
+          / Real.sqrt ((∑ k, x k) * (∑ k, y k))) 0 with h | h | h
+      · exact h
+      · exact absurd h hd
+      · exact absurd hs (Real.sqrt_pos.2 h).ne'
+    have hr : HasDerivAt (fun t => ∑ j, Real.sqrt (Function.update x i t j * y j))
+        (1 * y i / (2 * Real.sqrt (x i * y i))) (x i) :=
+      hasDerivAt_sum_update (fun j s => Real.sqrt (s * y j)) x i _
+        (((hasDerivAt_id' (x i)).mul_const (y i)).sqrt hi)
+    have hl : HasDerivAt (fun t => ∑ j, Function.update x i t j) 1 (x i) :=
+      hasDerivAt_sum_update (fun _ s => s) x i 1 (hasDerivAt_id' _)
+    have hdd := (hl.mul_const (∑ j, y j)).sqrt
+      (by simp only [Function.update_eq_self]; exact hpos.ne')
+    have hq := (hr.fun_div hdd
+      (by simp only [Function.update_eq_self]; exact (Real.sqrt_pos.2 hpos).ne')).const_sub 1
+    have h := hq.sqrt (by simp only [Function.update_eq_self]; exact hd)
+    refine h.congr_deriv ?_
+    simp only [Function.update_eq_self]
+    rw [hs]; simp
+  rw [hellingerGrad_snd x y hx.ne' hy.ne' hs, getD_ofFn]
   have hr : HasDerivAt (fun t => ∑ j, Real.sqrt (Function.update x i t j * y j))
       (1 * y i / (2 * Real.sqrt (x i * y i))) (x i) :=
     hasDerivAt_sum_update (fun j s => Real.sqrt (s * y j)) x i _
